@@ -277,6 +277,22 @@ class Opt(object):
         return 'Opt(%r)' % (self.value,)
 
 
+class GenV(object):
+    """unevaluated generator expression with the environment it closes over"""
+    __slots__ = ('node', 'env', 'frame')
+
+    def __init__(self, node, env, frame):
+        self.node = node
+        self.env = env
+        self.frame = frame
+
+    def key(self):
+        return ('genexp', id(self.node))
+
+    def __repr__(self):
+        return 'GenV@%d' % getattr(self.node, 'lineno', 0)
+
+
 class FuncV(object):
     """module-level function or lambda of the analysed package"""
     __slots__ = ('mod', 'fn')
